@@ -198,7 +198,7 @@ def apply_special(fmt, obj, name, k, desc=None):
                 # a platform other trees in the same process legitimately name, but this one does not
                 named = set(desc["tree"]["platforms"]) if desc else set(obj.tree.platforms)       # what THIS tree was given, not what the object claims
                 others = [p for p in ("xen", "x86_64", "i386", "ppc64le", "efi", "s390x", "Xen") if p not in named and p != obj.tree.arch]
-                obj.images.images[others[(k // 3) % len(others)]] = {"kernel": "vmlinuz"}
+                obj.images.images[others[(k // 3) % len(others)]] = {"kernel": "vmlinuz"} if (k // 5) % 2 else {}
                 return "images[%s] (named by other trees only)" % others[(k // 3) % len(others)], 1
             if k % 3 == 1:
                 # the arch is listed automatically on WRITE, but image tables are checked against the platforms the tree
@@ -206,8 +206,9 @@ def apply_special(fmt, obj, name, k, desc=None):
                 obj.tree.platforms.discard(obj.tree.arch)
                 obj.images.images.setdefault(obj.tree.arch, {})["kernel"] = "vmlinuz"
                 return "images[<tree arch>] with the arch missing from tree.platforms", 1
-            obj.images.images["ghost_platform"] = {"kernel": "vmlinuz"}
-            return "images[ghost_platform]", 1
+            # ... with an image, or with a table that is still empty: the [images-<platform>] section is written either way
+            obj.images.images["ghost_platform"] = {"kernel": "vmlinuz"} if (k // 3) % 2 else {}
+            return "images[ghost_platform]%s" % ("" if (k // 3) % 2 else " (empty table)"), 1
         if name == "absolute-checksum-path":
             obj.checksums.checksums["/abs/repomd.xml"] = ("sha256", "aa")
             return "checksums[/abs/repomd.xml]", 1
